@@ -466,6 +466,7 @@ func (s *Slicer) walkLoad(st *sliceState, ld *ssa.UnOp, depth int, ctx *callCtx)
 	switch a := addr.(type) {
 	case *ssa.FieldAddr:
 		f := fieldOfAddr(a)
+		st.seen[a] = true
 		for _, sto := range fieldStores(ld.Parent(), a.X, f) {
 			s.walk(st, sto.Val, depth, ctx)
 		}
